@@ -170,6 +170,7 @@ class C12(Prop):
         if rng.random() < 0.4:
             twin_verbose = rng.choice([0, 1, 2])
         return {"history": hist, "B": bops, "endings": endings, "twin_verbose": twin_verbose,
+                "fresh_twin": (tier == "thorough" and idx % 40 == 7) or (tier == "quick" and idx % 175 == 7),
                 "tag": "%s|%s" % (",".join(endings), b.info.get("template")), "opts": {"raw": True}}
 
     def legs(self, plan):
@@ -180,8 +181,11 @@ class C12(Prop):
             for op in twin:
                 if op["op"] == "solve":
                     op["cfg"]["verbose"] = plan["twin_verbose"]
-        return {"after": {"ops": plan["history"] + plan["B"], "opts": plan["opts"]},
+        legs = {"after": {"ops": plan["history"] + plan["B"], "opts": plan["opts"]},
                 "pristine": {"ops": twin, "opts": plan["opts"]}}
+        if plan.get("fresh_twin"):
+            legs["pristine"]["fresh"] = True      # a genuinely fresh interpreter instead of a fork of the zygote
+        return legs
 
     def judged_legs(self, plan):
         return []
@@ -231,7 +235,8 @@ class C12(Prop):
                 seen.add(v["signature"])
                 out.append(v)
         nontrivial = reached and nh > 0
-        info = {"nontrivial": nontrivial, "noverdict": not reached}
+        info = {"nontrivial": nontrivial, "noverdict": not reached,
+                "counters": {"fresh_interpreter_twins": 1} if plan.get("fresh_twin") else {}}
         return out, info
 
     def accept_oracle(self, oracle):
